@@ -4,6 +4,8 @@ import CedarVerif.Lemmas.SyntaxPolicy
 import CedarVerif.Lemmas.SyntaxPolicySound
 import CedarVerif.Lemmas.SyntaxLex
 import CedarVerif.Lemmas.SyntaxLexWF
+import CedarVerif.Lemmas.SyntaxTokOK
+import CedarVerif.Lemmas.SyntaxLexSpace
 import CedarVerif.Cedar.Eval
 /-
 C05 — policy text → AST → text round trip.  Property theorems (every `theorem` here is an obligation).
@@ -54,10 +56,25 @@ keywords, `[0-9]+` by value, `"(\\.|[^"\\])*"` kept raw, slots, two-character pu
 * `lex_print` — for every list `ts` of lexer-producible tokens (`TokOK`: identifier-shaped `IDENTIFIER`s, string tokens
   matching the `STRINGLIT` body regex, slots `?ident`; full token alphabet), `lex (render ts) = some ts`, `render` = tokens
   separated by single spaces (the harness's `render`; Rust's `Display` uses tighter spacing — its output is covered by the
-  `(lex …)` / `(lexpolparse …)` correspondence lines, not by this theorem).
-Not covered by theorems: that the printers' tokens satisfy `TokOK` (identifiers come from `ParserImage` ASTs, string tokens
-from `escapeStr`: plausible, not proved); the exact spacing of `Display`; policy sets;
-the EST printer; the nesting-depth limit of the real parser (the model has none).
+  `(lex …)` / `(lexpolparse …)` correspondence lines; any other spacing: `lex_respace` below).
+PRINTERS EMIT LEXABLE TOKENS, CHARACTER-LEVEL ROUND TRIP (proofs: Lemmas/SyntaxTokOK.lean):
+* `escapeStr_rawOK` / `escapeStrAt_rawOK` / `escapePattern_rawOK` — `escape_debug` output is one `STRINGLIT` body for EVERY escape
+  table (no side condition: the `\\ \" \n …` arms of `escapeChar` = `char::escape_debug_ext` precede the table lookups).
+* `printE_tokOK` (on `ParserImage`), `printPolicy_tokOK` (on `PolicyImage` + `AnnKeysIdent`: annotation keys identifier-shaped —
+  Rust `AnyId`s; the model keeps `String`s, `PolicyImage` does not constrain them, and the statement is FALSE without it:
+  `badKeyPolicy`); `parse_annKeysIdent` — the parser establishes `AnnKeysIdent` on `TokWF` tokens.
+* `expr_text_round_trip`, `text_round_trip` — `lex (render (print x)) = some (print x)` and `lex` + parse of that text = `x`;
+  `expr_text_round_trip_from_text`, `text_round_trip_from_text` — starting from ANY text the model lexer + parser accept, with no
+  side hypothesis: print, render to characters, lex, parse gives the same object.
+SPACING (proofs: Lemmas/SyntaxLexSpace.lean):
+* `lex_respace` — the lexer ignores spacing: tokens written with arbitrary separators (blanks / `//` comments closed by a line
+  break / nothing) lex to the same tokens provided the text after each token does not extend it (`stopsTok`; token-level
+  `NoGlue`); `lex_renderWith` (separator chosen per adjacent pair), `lex_renderMin` (tightest spacing), `stopsTok_blank`;
+  `text_round_trip_spacing`, `expr_text_round_trip_spacing`, `text_round_trip_min` — the round trip for every admissible spacing
+  of the printer's tokens.
+Not covered by theorems: that Rust's `Display` spacing IS an admissible spacing of the model printer's tokens (i.e. that
+`Display` never writes two gluing tokens without a blank — covered by the `(lex …)` / `(lexpolparse …)` correspondence lines on
+Display output); policy sets; the EST printer; the nesting-depth limit of the real parser (the model has none).
 -/
 namespace Cedar.C05
 open Cedar Cedar.Syntax
@@ -722,5 +739,189 @@ example : ∃ b, parsePolicy "p" ((lex "@a(\"x\")permit(principal,action,resourc
     cases hl : lex "@a(\"x\")permit(principal,action,resource)when{1<2}unless{false};".toList with
     | none => intro s hs; simp at hs
     | some ts => simpa using lex_tokWF _ ts hl
+
+/-! ### the printers only emit lexer-producible tokens; the round trip on characters -/
+
+/-- **`escape_debug` output is always one `STRINGLIT` body** `(\\.|[^"\\])*`, for EVERY escape table: no side condition of the
+form "the table escapes `"` and `\`" is needed, because in `char::escape_debug_ext` (model: `escapeChar`) the arms for
+`\0 \t \r \n \\ \" \'` come before the table lookups (`is_grapheme_extended`, `is_printable`), every escape emitted is `\` + a
+non-newline character, and the `\u{…}` payload is lower-case hex.  Hence every string token of the printers (string literals,
+entity ids, non-identifier attribute names / record keys, annotation values) lexes back as one token. -/
+theorem escapeStr_rawOK (mustEscape : Char → Bool) (s : List Char) : rawOK (escapeStr mustEscape s) = true :=
+  rawOK_escapeStr mustEscape s
+
+/-- same with the position-dependent table of `str::escape_debug` (first character vs the rest) -/
+theorem escapeStrAt_rawOK (mustEscape : Nat → Char → Bool) (i : Nat) (s : List Char) : rawOK (escapeStrAt mustEscape i s) = true :=
+  rawOK_escapeStrAt mustEscape s i
+
+/-- `like` patterns (`*`, `\*`, `escape_debug` of the other characters) -/
+theorem escapePattern_rawOK (mustEscape : Char → Bool) (p : Pattern) : rawOK (escapePattern mustEscape p) = true :=
+  rawOK_escapePattern mustEscape p
+
+-- what the unconditional arms are needed for: a raw quote / a trailing backslash / backslash-newline is not a string body
+example : rawOK ['a', '"'] = false ∧ rawOK ['a', '\\'] = false ∧ rawOK ['\\', '\n'] = false := by decide +kernel
+example : escapeStr (fun _ => false) ['a', '"', '\\', '\n'] = ['a', '\\', '"', '\\', '\\', '\\', 'n'] := by decide +kernel
+
+/-- **Every token of the expression printer is lexer-producible** (`TokOK`) on the parser image: bare identifiers are keywords,
+variable / method / extension-function names, components of valid type names, or attribute names / record keys that passed
+`is_normalized_ident`; string tokens hold `escape_debug` output; slots are `?principal` / `?resource`.  (`ParserImage` is used
+only through: type names valid, `call` names are extension names; proof: Lemmas/SyntaxTokOK.lean.) -/
+theorem printE_tokOK (mustEscape : Char → Bool) (e : Expr) (h : ParserImage e = true) :
+    ∀ t ∈ Print.expr mustEscape e, TokOK t = true :=
+  printE_tokOK_frag mustEscape e (parserImage_inFrag3 joinName_splitOn (sz3 e) e (Nat.le_refl _) h)
+
+/-- annotation keys are identifier-shaped.  In Rust the keys are `AnyId`s (identifier-shaped by construction); the model's
+`TemplateBody` keeps them as `String`s and `PolicyImage` does not constrain them (the token-level theorems do not need it), so on
+the character level it is an explicit invariant of the object — established by the parser (`parse_annKeysIdent`). -/
+def AnnKeysIdent (b : TemplateBody) : Bool := annKeysOK b.annotations
+
+/-- **Every token of the policy printer is lexer-producible** on the policy image with identifier-shaped annotation keys. -/
+theorem printPolicy_tokOK (mustEscape : Char → Bool) (b : TemplateBody) (h : PolicyImage b = true) (hk : AnnKeysIdent b = true) :
+    ∀ t ∈ printPolicy mustEscape b, TokOK t = true :=
+  allOK_mem (printPolicy_allOK mustEscape b (policyOKW_mono (fun _ => validTypeName_ok)
+    (fun e he => parserImage_inFrag3 joinName_splitOn (sz3 e) e (Nat.le_refl _) he) h) hk)
+
+/-- on well-formed tokens the policy parser only returns identifier-shaped annotation keys -/
+theorem parse_annKeysIdent (id : String) (ts : List Token) (b : TemplateBody) (hwf : TokWF ts) (h : parsePolicy id ts = some b) :
+    AnnKeysIdent b = true :=
+  parsePolicyF_annKeysOK _ id ts b hwf h
+
+-- `AnnKeysIdent` cannot be dropped: a `TemplateBody` in `PolicyImage` whose annotation key is the `String` "a b" prints (token
+-- level) to something the token-level parser reads back, but the rendered TEXT lexes to different tokens
+def badKeyPolicy : TemplateBody := { samplePolicy with annotations := [("a b", "")], nonScope := none }
+example : PolicyImage badKeyPolicy = true := by
+  simp [PolicyImage, badKeyPolicy, samplePolicy, policyOKW, sortedAnn, scopeOKW, refOKW, actionOKW, condOKW, validTypeName,
+    splitOn_NsUser] <;> decide +kernel
+example : lex (render (printPolicy (fun _ => false) badKeyPolicy)) ≠ some (printPolicy (fun _ => false) badKeyPolicy) := by
+  have hp : printPolicy (fun _ => false) badKeyPolicy =
+      [.at, .ident "a b", .lparen, .str [], .rparen, .ident "permit", .lparen,
+       .ident "principal", .eqeq, .slot "?principal", .comma, .ident "action", .comma,
+       .ident "resource", .ident "is", .ident "Ns", .dcolon, .ident "User", .ident "in", .slot "?resource", .rparen, .semi] := by
+    simp [printPolicy, badKeyPolicy, samplePolicy, printAnnots, printScope, printAction, printCond, printE, refExpr, nameTokens,
+      splitOn_NsUser, effectName, slotName, strTok]
+    decide +kernel
+  rw [hp]
+  decide +kernel
+
+/-- **C05 on characters, expression level**: for every AST of the parser image and every escape table, the rendered text of the
+printed expression lexes back to exactly the printed tokens, and lexing + parsing it gives the AST back. -/
+theorem expr_text_round_trip (mustEscape : Char → Bool) (e : Expr) (h : ParserImage e = true) :
+    lex (render (Print.expr mustEscape e)) = some (Print.expr mustEscape e) ∧
+    (lex (render (Print.expr mustEscape e))).bind Parse.expr = some e := by
+  have hl := lex_print _ (printE_tokOK mustEscape e h)
+  exact ⟨hl, by rw [hl]; exact parse_print_full mustEscape e h⟩
+
+/-- from text, expression level: whatever text the model lexer + parser accept, print → render → lex → parse gives the same AST -/
+theorem expr_text_round_trip_from_text (mustEscape : Char → Bool) (text : List Char) (ts : List Token) (e : Expr)
+    (hl : lex text = some ts) (h : Parse.expr ts = some e) :
+    (lex (render (Print.expr mustEscape e))).bind Parse.expr = some e :=
+  (expr_text_round_trip mustEscape e (parse_image ts (lex_tokWF text ts hl) e h)).2
+
+/-- **C05 on characters, policy level**: for every policy / template of the parser image (with identifier-shaped annotation
+keys) and every escape table, the rendered text of the printed policy lexes back to exactly the printed tokens, and
+lexing + parsing that text gives the same object. -/
+theorem text_round_trip (mustEscape : Char → Bool) (b : TemplateBody) (h : PolicyImage b = true) (hk : AnnKeysIdent b = true) :
+    lex (render (printPolicy mustEscape b)) = some (printPolicy mustEscape b) ∧
+    (lex (render (printPolicy mustEscape b))).bind (parsePolicy b.id) = some b := by
+  have hl := lex_print _ (printPolicy_tokOK mustEscape b h hk)
+  exact ⟨hl, by rw [hl]; exact policy_parse_print mustEscape b h⟩
+
+/-- **From text to text to object, no side hypothesis**: whatever policy TEXT the model lexer + parser accept, printing the parsed
+object (any escape table), rendering it as characters, lexing and parsing again gives the same object. -/
+theorem text_round_trip_from_text (mustEscape : Char → Bool) (id : String) (text : List Char) (ts : List Token) (b : TemplateBody)
+    (hl : lex text = some ts) (h : parsePolicy id ts = some b) :
+    (lex (render (printPolicy mustEscape b))).bind (parsePolicy b.id) = some b :=
+  have hwf := lex_tokWF text ts hl
+  (text_round_trip mustEscape b (policy_parse_image id ts b hwf h) (parse_annKeysIdent id ts b hwf h)).2
+
+-- non-vacuity: the sample template (annotation value with an escaped quote, slots, `is … in`, folded condition), sample3
+example : (lex (render (printPolicy (fun c => c.toNat ≥ 127) samplePolicy))).bind (parsePolicy "p0") = some samplePolicy :=
+  (text_round_trip _ samplePolicy samplePolicy_image (by decide +kernel)).2
+example : ∀ t ∈ printPolicy (fun c => c.toNat ≥ 127) samplePolicy, TokOK t = true :=
+  printPolicy_tokOK _ _ samplePolicy_image (by decide +kernel)
+example : (lex (render (Print.expr (fun c => c.toNat ≥ 127) sample3))).bind Parse.expr = some sample3 :=
+  (expr_text_round_trip _ sample3 (inFrag3_parserImage _ _ (Nat.le_refl _) sample3_inFrag3)).2
+-- from the text of the sample (tokens rendered with single spaces): lex, parse, print, render, lex, parse
+example : ∃ b, (lex (render samplePolicyTokens)).bind (parsePolicy "p0") = some b ∧
+    (lex (render (printPolicy (fun _ => true) b))).bind (parsePolicy b.id) = some b := by
+  have hl : lex (render samplePolicyTokens) = some samplePolicyTokens := lex_print _ (by decide +kernel)
+  cases h : parsePolicy "p0" samplePolicyTokens with
+  | none => have : (parsePolicy "p0" samplePolicyTokens).isSome = true := by rfl
+            rw [h] at this; cases this
+  | some b => exact ⟨b, by rw [hl]; exact h, text_round_trip_from_text _ "p0" _ _ b hl h⟩
+
+/-! ### spacing does not matter -/
+
+/-- **Spacing insensitivity of the lexer.**  Write each token followed by an arbitrary separator (`tss : List (Token × List Char)`,
+text `lead ++ t₁ s₁ t₂ s₂ …`).  If every token is lexer-producible, every separator and the leading text is skippable
+(`Filler`: any sequence of Unicode blanks and `//…` comments closed by `\n` / `\r`; the EMPTY separator is allowed), and the
+text following each token does not extend it under longest match (`stopsTok`: no identifier character after an identifier /
+slot, no digit after a number, no `:` after `:`, no `=` after `= ! < >`, no `/` after `/`), then `lex` returns exactly the tokens.
+`render` (single spaces), Rust's `Display` spacing (`permit(principal, action, resource) when { … };`, `a.b`, `f(x)`, `[1, 2]`)
+and the tightest possible spacing (`lex_renderWith` with `minSep`) are instances. -/
+theorem lex_respace (lead : List Char) (tss : List (Token × List Char)) (hl : Filler lead) (h : Spaced tss) :
+    lex (lead ++ respaceGo tss) = some (tss.map Prod.fst) :=
+  lexFuel_respace lead hl tss h
+
+/-- separators chosen per adjacent pair by any admissible function (`SepFine sep`: `sep t t'` is skippable text and
+`sep t t' ++ tokChars t'` does not extend `t`) -/
+theorem lex_renderWith (sep : Token → Token → List Char) (hs : SepFine sep) (ts : List Token) (h : ∀ t ∈ ts, TokOK t = true) :
+    lex (renderWith sep ts) = some ts := by
+  have := lex_respace [] (pairsWith sep ts) .nil (spaced_pairsWith sep hs ts h)
+  rwa [List.nil_append, respaceGo_pairsWith, pairsWith_fst] at this
+
+/-- the tightest spacing (a blank only where two tokens would glue, `NoGlue`) lexes back -/
+theorem lex_renderMin (ts : List Token) (h : ∀ t ∈ ts, TokOK t = true) : lex (renderWith minSep ts) = some ts :=
+  lex_renderWith minSep sepFine_minSep ts h
+
+/-- a separator that starts with a blank never extends the token before it; a non-empty separator decides alone -/
+theorem stopsTok_blank (t : Token) (c : Char) (h : isWs c = true) (R : List Char) : stopsTok t (c :: R) = true :=
+  stopsTok_ws t h R
+
+/-- **C05 on characters with any spacing**: for every policy / template `b` of the parser image, every escape table and EVERY admissible way of spacing the printed tokens (`tss` carries the printer's tokens,
+`Spaced tss`), lexing + parsing the text gives `b` back. -/
+theorem text_round_trip_spacing (mustEscape : Char → Bool) (b : TemplateBody) (h : PolicyImage b = true)
+    (lead : List Char) (tss : List (Token × List Char)) (hl : Filler lead) (hs : Spaced tss)
+    (ht : tss.map Prod.fst = printPolicy mustEscape b) :
+    (lex (lead ++ respaceGo tss)).bind (parsePolicy b.id) = some b := by
+  rw [lex_respace lead tss hl hs, ht]
+  exact policy_parse_print mustEscape b h
+
+/-- same at expression level -/
+theorem expr_text_round_trip_spacing (mustEscape : Char → Bool) (e : Expr) (h : ParserImage e = true)
+    (lead : List Char) (tss : List (Token × List Char)) (hl : Filler lead) (hs : Spaced tss)
+    (ht : tss.map Prod.fst = Print.expr mustEscape e) :
+    (lex (lead ++ respaceGo tss)).bind Parse.expr = some e := by
+  rw [lex_respace lead tss hl hs, ht]
+  exact parse_print_full mustEscape e h
+
+/-- the printed policy in the tightest spacing round-trips (no `Spaced` hypothesis left: the printer's tokens are `TokOK`) -/
+theorem text_round_trip_min (mustEscape : Char → Bool) (b : TemplateBody) (h : PolicyImage b = true) (hk : AnnKeysIdent b = true) :
+    (lex (renderWith minSep (printPolicy mustEscape b))).bind (parsePolicy b.id) = some b := by
+  rw [lex_renderMin _ (printPolicy_tokOK mustEscape b h hk)]
+  exact policy_parse_print mustEscape b h
+
+-- non-vacuity: the sample template in the tightest spacing, its text, and a hand-spaced text with a comment and odd blanks
+example : (lex (renderWith minSep (printPolicy (fun _ => false) samplePolicy))).bind (parsePolicy "p0") = some samplePolicy :=
+  text_round_trip_min _ samplePolicy samplePolicy_image (by decide +kernel)
+example : String.ofList (renderWith minSep samplePolicyTokens) =
+    "@id(\"a\\\"b\")permit(principal==?principal,action,resource is Ns::User in?resource)when{context.x}unless{principal has y};" := by
+  decide +kernel
+example : lex ("\t".toList ++ respaceGo [(.ident "a", "// c \"\\\r\n ".toList), (.lt, "\u00a0".toList), (.eq, " ".toList), (.eq, []), (.num 7, []),
+      (.slash, " //x\n".toList), (.ident "b", [])]) =
+    some [.ident "a", .lt, .eq, .eq, .num 7, .slash, .ident "b"] :=
+  lex_respace _ _ (.ws (by decide +kernel) .nil)
+    ⟨by decide +kernel, .comment (body := " c \"\\".toList) '\r' (by decide +kernel) (.inr rfl) (.ws (by decide +kernel) (.ws (by decide +kernel) .nil)), by decide +kernel,
+     by decide +kernel, .ws (by decide +kernel) .nil, by decide +kernel,
+     by decide +kernel, .ws (by decide +kernel) .nil, by decide +kernel,
+     by decide +kernel, .nil, by decide +kernel,
+     by decide +kernel, .nil, by decide +kernel,
+     by decide +kernel, .ws (by decide +kernel) (.comment (body := ['x']) '\n' (by decide +kernel) (.inl rfl) .nil), by decide +kernel,
+     by decide +kernel, .nil, by decide +kernel, trivial⟩
+-- gluing is real: without a separator `<` `=` is one token, `a` `b` one identifier, `/` `/` a comment
+example : NoGlue .lt .eq = false ∧ NoGlue (.ident "a") (.ident "b") = false ∧ NoGlue .slash .slash = false ∧
+    NoGlue (.ident "a") (.num 1) = false ∧ NoGlue (.num 1) (.ident "a") = true ∧ NoGlue .rparen (.ident "when") = true := by
+  decide +kernel
+example : lex "<=".toList = some [.le] ∧ lex "a//b".toList = some [.ident "a"] := by decide +kernel
 
 end Cedar.C05
